@@ -28,7 +28,7 @@ pub fn run(p: &Prog, cfg: &Cfg, rep: &mut Report) {
             cfg,
             &p.model.id,
             &h.id,
-            (args_strategy(&h.conc), env_strategy(), proptest::bool::ANY).prop_map(|(a, e, mt)| (a, e, json!(mt))).boxed(),
+            (args_strategy(&h.conc), super::c02::env_strategy_with_resp(), proptest::bool::ANY).prop_map(|(a, e, mt)| (a, e, json!(mt))).boxed(),
             rep,
             |(args, case, via_mt): &(Vec<Value>, EnvCase, Value), tally| {
                 let via_mt = via_mt.as_bool().unwrap_or(false);
